@@ -40,10 +40,15 @@ fn main() {
         let _ = std::io::stdout().write_all(out.as_bytes());
         std::process::exit(0);
     }
+    if prop == "c09-child" {
+        let args: Vec<String> = std::env::args().skip(2).collect();
+        props::c09::child_main(&args);
+    }
     let ctx = vcommon::ctx::Ctx::from_env(&prop);
     match prop.as_str() {
         "C01" => props::c01::run(ctx),
         "C06" => props::c06::run(ctx),
+        "C09" => props::c09::run(ctx),
         "C10" => props::c10::run(ctx),
         "C19" => props::c19::run(ctx),
         "C20" => props::c20::run(ctx),
